@@ -296,8 +296,21 @@ async fn one(ctx: &mut Ctx, case: u64, rng: &mut Rng) {
     }
     // seed state
     let pool = uni.entries(rng, 10, 3);
-    for e in pool.iter().take(4) {
+    // One case in three starts while the node's clock is two hours ahead and is then set right (added
+    // after seeded change agent-C03-11: a clock that steps back - an NTP correction, a resumed VM - is
+    // still the clock; "too far in the future" is judged against what it says now, not against the
+    // highest reading the process ever took).
+    let step_back = rng.chance(1, 3);
+    if step_back {
+        iroh_docs::verif::set_clock(now + 7_200_000_000);
+        ctx.count("cases_in_which_the_clock_steps_back", 1);
+    }
+    for (i, e) in pool.iter().take(4).enumerate() {
         let _ = h.insert_remote(ns, e.clone(), FROM, ContentStatus::Complete).await;
+        if i == 0 && step_back {
+            let _ = h.sync_initial_message(ns).await;
+            iroh_docs::verif::set_clock(now);
+        }
     }
     act::drain(&rx);
     ctx.eval();
